@@ -243,6 +243,14 @@ func caseRoundTrip(t *testing.T, tp *simrt.Tape, c *Ctx) (res Result) {
 	w := genLoadWarrior(tp, M, is88, maxLen)
 	text, feats := renderLoad(tp, &res, w, M, is88)
 	plan := genLegalPlan(tp, len(text))
+	if len(text) > 16384 {
+		// very long texts: byte-sized chunks would only multiply the number of
+		// draws; chunk boundaries inside long lines are still exercised at 64+
+		plan.ZeroReads = 0
+		if plan.MaxChunk > 0 && plan.MaxChunk < 64 {
+			plan.MaxChunk = 64
+		}
+	}
 	res.Decoded = map[string]any{"kind": "round-trip", "config": cfgMap(cfgP), "warrior": warStr(w), "text": string(text), "layout": feats,
 		"reader": map[string]any{"max_chunk": plan.MaxChunk, "zero_reads_of_16": plan.ZeroReads, "eof_with_data": plan.EOFWithData, "chunks": plan.Chunks}}
 	res.Hash = hashStr(string(text) + fmt.Sprint(cfgP))
